@@ -335,7 +335,7 @@ def c17_oracle(full, io, b):
         elif f[0] == "bld":
             kw = dict(a.partition("=")[::2] for a in f[2:])
             if "authority" not in kw and kw.get("host") and "encoded" not in kw and re.match(r"^[a-z0-9.]+\Z", dec(kw["host"])) and not kw.get("path"):
-                scheme = dec(kw.get("scheme", ""))
+                scheme = dec(kw.get("scheme", "")).lower()          # build() stores the scheme lower-case (fix e21485a)
                 pv = kw.get("port", "~")
                 if pv in ("T", "X"):
                     if res.startswith("#"):
